@@ -84,6 +84,10 @@ def gen_tu(t):
         add('vecmatassign%d' % d, '%s& v, const %s& m' % (V[d], M[d]), 'v *= m;', spec='vecmat', d=d, inplace=True, fam='vecmat%d' % d)
     add('matmul4_static2', '%s& o, const %s& a, const %s& b' % (M[4], M[4], M[4]), 'o = %s::multiply(a, b);' % M[4], spec='matmul', d=4, fam='matmul4')
     add('matmul4_static3', '%s& o, const %s& a, const %s& b' % (M[4], M[4], M[4]), '%s::multiply(a, b, o);' % M[4], spec='matmul', d=4, fam='matmul4')
+    # the out-parameter may be one of the operands: the product is that of the values the operands had on entry
+    add('matmul4_static3_out_is_b', '%s& b, const %s& a' % (M[4], M[4]), '%s::multiply(a, b, b);' % M[4], spec='matmul', d=4, fam='matmul4', bases=('a1', 'a0'))
+    add('matmul4_static3_out_is_a', '%s& a, const %s& b' % (M[4], M[4]), '%s::multiply(a, b, a);' % M[4], spec='matmul', d=4, fam='matmul4', bases=('a0', 'a1'))
+    add('matmul4_static3_square', '%s& a' % M[4], '%s::multiply(a, a, a);' % M[4], spec='matmul', d=4, fam='matmul4', bases=('a0', 'a0'))
     # homogeneous
     for d in (3, 4):
         n = d - 1
@@ -122,6 +126,7 @@ def spec_for(m, sym):
     inpl = m.get('inplace')
     A = 'a0' if inpl else 'a1'
     B = 'a1' if inpl else 'a2'
+    if m.get('bases'): A, B = m['bases']          # out-parameter forms called with the result aliasing an operand
     if k == 'dot':
         a, b = sym.vec('a1', m['n']), sym.vec('a2', m['n'])
         return [(sum_p(P.pmul(x, y) for x, y in zip(a, b)), ONE)]
